@@ -294,6 +294,86 @@ def make_spec_step(nops):
     return h
 
 
+# ---------------------------------------------------------------------------------------------------------------------
+# path grammar: dotted attributes and ["key"] / ['key'] lookups, mixed, keys that contain dots
+
+SEGS = [("attr", ".a", "a"), ("dq", '["k"]', "k"), ("sq", "['k']", "k"), ("dq-dot", '["x.y"]', "x.y"), ("sq-dot", "['x.y']", "x.y"), ("attr2", ".b_2", "b_2")]
+
+
+def make_paths():
+    def h(n: int, s1: int, s2: int, s3: int, p: bool, v: int, w: int) -> str:
+        assume(1 <= n <= 3)
+        segs = [pick(SEGS, s1)]
+        if n >= 2:
+            segs.append(pick(SEGS, s2))
+        if n >= 3:
+            segs.append(pick(SEGS, s3))
+        path = "root" + "".join(sg[1] for sg in segs)
+        shape = "-".join(sg[0] for sg in segs)
+        try:
+            al = Alias(path, passthrough=bool(p))
+        except ValueError as ex:
+            check(False, "an aliased attribute follows dotted and [\"key\"] paths (also mixed)", f"C18/path/{shape}/rejected", lambda: f"Alias({path!r}): {ex!r}")
+
+        class P:
+            pass
+
+        P.al = al
+        al.__set_name__(P, "al")
+        # build the target structure from the leaf up
+        leaf_holder = None
+        child = v
+        for kind, _, name in reversed(segs):
+            if kind.startswith("attr"):
+                holder = In()
+                setattr(holder, name, child)
+            else:
+                holder = {name: child}
+            if leaf_holder is None:
+                leaf_holder = holder
+            child = holder
+        o = P()
+        o.root = child
+        lk, _, lname = segs[-1]
+
+        def leaf():
+            return getattr(leaf_holder, lname) if lk.startswith("attr") else leaf_holder[lname]
+
+        tag = f"C18/path/{shape}"
+        try:
+            got = o.al
+        except Exception as ex:
+            check(False, "an aliased attribute reads as the current value of its target, following dotted and [\"key\"] paths", f"{tag}/read-raises-{type(ex).__name__}", lambda: f"{path!r}: {ex!r}")
+        check(got is v or got == v, "an aliased attribute reads as the current value of its target", f"{tag}/read-value", lambda: f"{path!r}: got {got!r} want {v!r}")
+        o.al = w
+        if p:
+            check(leaf() is w or leaf() == w, "a passthrough alias forwards assignment to the target", f"{tag}/passthrough-write", lambda: f"{path!r}: target {leaf()!r} want {w!r}")
+        else:
+            check(leaf() is v or leaf() == v, "a local assignment shadows the target without modifying it", f"{tag}/local-write-modified-target", lambda: f"{path!r}")
+            check(o.al is w or o.al == w, "a local assignment shadows the target", f"{tag}/local-write-value")
+            del o.al
+            check(o.al is v or o.al == v, "deleting the local assignment restores the live view", f"{tag}/delete-restores")
+        return "ok"
+
+    h.__name__ = "alias_paths"
+    return h
+
+
+def make_bad_paths():
+    BAD = ["a.", ".b", "c[]", "c[[", "c.['d']", 'd["k"]x', "a..b", "a b", 'a["k"', "a.[\"k\"]", "a['k]"]
+
+    def h(i: int) -> str:
+        path = pick(BAD, i)
+        try:
+            Alias(path)
+        except ValueError:
+            return "rejected"
+        check(False, "a string that is not a dotted / [\"key\"] path is not accepted as one", f"C18/path/malformed-accepted", lambda: repr(path))
+
+    h.__name__ = "alias_bad_paths"
+    return h
+
+
 def obligations(tier):
     obs = []
     nops = 2 if tier == "quick" else 3
@@ -304,5 +384,7 @@ def obligations(tier):
             continue
         obs.append(Ob(f"C18.plain.{'deprecated' if dep else 'alias'}.shape{fsh}.{'passthrough' if fp else 'local'}.h{nops}", make_plain_step(nops, dep, fsh, fp), warm[:: (3 if not dep else 7)], f"plain class; {'DeprecatedAlias' if dep else 'Alias'}; path shape {SHAPES[fsh]!r}, passthrough={fp}; transform, fallback symbolic; initial target present/missing symbolic; history of {nops} operations from {{read, write v, delete, write target, delete target, deepcopy+read, read twice}} with symbolic selectors and values (ints, or None by a symbolic flag)", expect={"ok"}, timeout=T))
     warm_s = [(p, t, f, tg, 5, a, 7, b, 9) for p in (False, True) for t in (False, True) for f in (False, True) for tg in (False, True) for a in range(7) for b in (0, 3)]
+    obs.append(Ob("C18.paths", make_paths(), [(n, a, b, c, p_, 5, 6) for n in (1, 2, 3) for a in range(6) for b in (0, 1, 3) for c in (0, 2, 4) for p_ in (False, True)], f"path grammar: root attribute followed by 1..3 segments from {[sg[1] for sg in SEGS]} (symbolic selectors): construction, read, local / passthrough write, delete; symbolic values", expect={"ok"}, timeout=T))
+    obs.append(Ob("C18.paths.malformed", make_bad_paths(), [(i,) for i in range(11)], "11 malformed path strings must be refused with ValueError", expect={"rejected"}, timeout=T))
     obs.append(Ob(f"C18.spec.h2", make_spec_step(2), warm_s, "spec class with al: int = Alias('t', ...) (managed, type-checked); passthrough, transform, fallback symbolic; history of 2 operations from {read, write, delete, with_al, with_t, deepcopy, ill-typed write}", expect={"ok"}, timeout=T))
     return obs
